@@ -35,7 +35,7 @@ func installValidator() {
 }
 
 // history classes: what kind of batch each build of a history gets
-var histKinds = []string{"large", "small", "manyfields", "fewfields", "syn", "plain", "vec", "empty", "rejected", "one", "dv", "nodv", "deep", "emptysyn", "shapes"}
+var histKinds = []string{"large", "small", "manyfields", "fewfields", "syn", "plain", "vec", "empty", "rejected", "one", "dv", "nodv", "deep", "emptysyn", "shapes", "xwide"}
 
 func histBatch(rng *rand.Rand, kind string, prefix string) *model.Batch {
 	o := model.GenOpts{NoBig: true, IDPrefix: prefix}
@@ -80,6 +80,10 @@ func histBatch(rng *rand.Rand, kind string, prefix string) *model.Batch {
 			}
 		}
 		return b
+	case "xwide":
+		// several hundred fields (more than 256 in most draws)
+		o.NumFields = []int{300, 257, 255, 400}[rng.Intn(4)]
+		return model.Gen(rng, "xwide", o)
 	case "shapes":
 		// geo-shape instances in fields without doc values: the builder collects
 		// their shapes although nothing will write them
